@@ -7,8 +7,10 @@ Mirrors `glue/core/data.py`: `add_component` (shape check, pixel / world compone
 `_update_world_components`, `ComponentID.label` / `Data.label` setters, `find_component_id`, and the
 hub messages each of them broadcasts (`glue/core/message.py`).  Core Lean only.
 
-`Impl`  = `step` (the code that exists, *with* the repairs F13/F16–F22 of `props.d/C17/fixes`;
-          `stepUnrepaired` keeps the behaviour before F20–F22 for the `decide`d witnesses);
+`Impl`  = `step` (the code that exists, *with* the repairs F13/F16–F25 of `props.d/C17/fixes` and
+          C14's F14; arbitrary arguments: `step` first accounts for ComponentID objects it has not seen,
+          then runs `stepCore`; `stepUnrepaired` keeps the behaviour before F20–F23 for the `decide`d
+          witnesses);
 `Spec`  = `specInv` (structural invariant on an observation), `specStep` (the messages of one call
           explain exactly the observed change), `specTrace` (both, along a whole history).
 Identifiers (`ComponentID` objects) are natural numbers, labels are natural-number codes (the
